@@ -60,6 +60,14 @@ type CEnum struct {
 type CMethod struct {
 	Name, In, Out string
 	Verb, Path    string
+	Body          string // google.api.http body: "*" for every verb but GET
+}
+
+func bodyOf(verb string) string {
+	if strings.EqualFold(verb, "get") {
+		return ""
+	}
+	return "*"
 }
 
 type CSvc struct {
@@ -299,7 +307,7 @@ func (rc *refCompiler) service(f *File, s *Service) {
 			out = pkg + "." + m.Name + "Response"
 			rc.message(out, file, m.Response, nil, "", nil)
 		}
-		svc.Methods = append(svc.Methods, CMethod{Name: m.Name, In: in, Out: out, Verb: strings.ToLower(m.Verb), Path: httpPath(s.BasePath, m.Path)})
+		svc.Methods = append(svc.Methods, CMethod{Name: m.Name, In: in, Out: out, Verb: strings.ToLower(m.Verb), Path: httpPath(s.BasePath, m.Path), Body: bodyOf(m.Verb)})
 	}
 	rc.c.Svcs[svc.FullName] = svc
 }
@@ -463,6 +471,7 @@ func Extract(files []protoreflect.FileDescriptor) *Contract {
 					case *annotations.HttpRule_Patch:
 						cm.Verb, cm.Path = "patch", p.Patch
 					}
+					cm.Body = rule.Body
 				}
 				s.Methods = append(s.Methods, cm)
 			}
